@@ -118,6 +118,7 @@ type coordState struct {
 	extra    []ReplayFile
 	maxRSSkb int64
 	redo     [][2]int
+	runSigs  map[uint64]uint64
 }
 
 func (c *coordState) take() (int, int, bool) {
@@ -323,6 +324,18 @@ func CoordMain(propID, tier string, seed uint64, runsOverride int) int {
 			exit = 2
 		}
 	}
+	if digestMode {
+		idxs := make([]uint64, 0, len(cs.runSigs))
+		for k := range cs.runSigs {
+			idxs = append(idxs, k)
+		}
+		sort.Slice(idxs, func(i, j int) bool { return idxs[i] < idxs[j] })
+		hh := sha256.New()
+		for _, k := range idxs {
+			fmt.Fprintf(hh, "%d:%d;", k, cs.runSigs[k])
+		}
+		fmt.Printf("DIGEST property=%s runs=%d %x\n", propID, len(idxs), hh.Sum(nil)[:12])
+	}
 	fmt.Printf("vsim: property=%s runs=%d nontrivial-distinct=%d violations=%d known-classes=%d wall=%.1fs exit=%d\n",
 		propID, cs.agg.Runs, len(cs.sigs), len(violLines), len(kclasses), wall, exit)
 	return exit
@@ -488,6 +501,12 @@ func (cs *coordState) merge(b *wireBatch) {
 		if cur, ok := cs.agg.Maxes[k]; !ok || v > cur {
 			cs.agg.Maxes[k] = v
 		}
+	}
+	for _, rs := range b.RunSigs {
+		if cs.runSigs == nil {
+			cs.runSigs = map[uint64]uint64{}
+		}
+		cs.runSigs[rs[0]] = rs[1]
 	}
 	if len(cs.agg.Samples) < 6 {
 		cs.agg.Samples = append(cs.agg.Samples, b.Samples...)
